@@ -11,14 +11,14 @@ cd "$WT"
 cargo build --offline -q -p sylt 2>/dev/null
 mkdir -p "$WT/res"
 for f in "$D"/*.sy; do b=$(basename "$f"); cp "$D"/*.sy "$WT/res/" ; done
-for f in "$D"/*.sy; do b=$(basename "$f"); ( cd "$WT/res" && ../target/debug/sylt -o - "$b" > "$WT/res/$b.base.out" 2>"$WT/res/$b.base.err"; echo $? > "$WT/res/$b.base.rc" ); done
+for f in "$D"/*.sy; do b=$(basename "$f"); ( cd "$WT/res" && timeout 20 ../target/debug/sylt -o - "$b" > "$WT/res/$b.base.out" 2>"$WT/res/$b.base.err"; echo $? > "$WT/res/$b.base.rc" ); done
 git apply "$D/patch.diff" || { echo '{"applies": false}' > "$OUT"; cd /; git -C /repo worktree remove --force "$WT"; exit 0; }
 cargo test --workspace --no-fail-fast --offline > "$WT/res/test.log" 2>&1
 PASSED=$(grep -E "^test result" "$WT/res/test.log" | sed -E 's/.* ([0-9]+) passed.*/\1/' | paste -sd+ | bc)
 FAILED=$(grep -E "^test .* FAILED$" "$WT/res/test.log" | sed -E 's/^test (.*) \.\.\. FAILED/\1/' | paste -sd, )
 cargo build --offline -q -p sylt 2>/dev/null
 DIFFS=""
-for f in "$D"/*.sy; do b=$(basename "$f"); ( cd "$WT/res" && ../target/debug/sylt -o - "$b" > "$WT/res/$b.mut.out" 2>"$WT/res/$b.mut.err"; echo $? > "$WT/res/$b.mut.rc" )
+for f in "$D"/*.sy; do b=$(basename "$f"); ( cd "$WT/res" && timeout 20 ../target/debug/sylt -o - "$b" > "$WT/res/$b.mut.out" 2>"$WT/res/$b.mut.err"; echo $? > "$WT/res/$b.mut.rc" )
   if ! cmp -s "$WT/res/$b.base.out" "$WT/res/$b.mut.out" || ! cmp -s "$WT/res/$b.base.rc" "$WT/res/$b.mut.rc"; then DIFFS="$DIFFS $b(rc $(cat $WT/res/$b.base.rc)->$(cat $WT/res/$b.mut.rc))"; fi
 done
 printf '{"applies": true, "tests_passed": %s, "tests_failed": "%s", "demos_that_differ": "%s"}\n' "${PASSED:-0}" "$FAILED" "$DIFFS" > "$OUT"
